@@ -22,7 +22,9 @@ RULE = ("metafiles: every creator of the tool (TorrentFile, TorrentFile align, T
         "(tracker set as list / as string / removed, url-list set / removed, info field edited); reference-encoded variants of them and "
         "metafiles of the reference encoder and hand-built dictionaries with arbitrary extra keys (non-UTF-8 keys, keys named like magnet "
         "parameters, decoy 'info' text before the info dictionary), cycling announce only / announce-list only / both / neither x url-list "
-        "list / string / absent, multi-tier lists, names with '/' and names / URLs that are not UTF-8.  Metafiles AT SCALE (64 KiB .. 2 MiB; "
+        "list / string / absent, multi-tier lists, names with '/' and names / URLs that are not UTF-8; payloads that consist of "
+        "ZERO-LENGTH files only (a directory and a single file through every creator, the reference encoder and hand-built "
+        "dictionaries: `pieces` is the empty string, which is still v1 content).  Metafiles AT SCALE (64 KiB .. 2 MiB; "
         "the rest stays below a few KiB; above 256 KiB only the hash strings grow): the tool's creators on sparse single files of 4200 .. "
         "16500 pieces of 16 KiB (v1 info dictionaries "
         "above 128 / 256 KiB, v2 / hybrid piece layers above 256 KiB) with trackers and web seeds, those files edited by edit_torrent and "
@@ -173,17 +175,18 @@ def variant(meta, g):
     return oracle.bencode(m)
 
 
-def hand_built(g, ver):
-    """a minimal dictionary written down by hand and encoded with the reference bencoder"""
+def hand_built(g, ver, empty=False):
+    """a minimal dictionary written down by hand and encoded with the reference bencoder; empty: the file has no bytes (length 0,
+       `pieces` the empty string, no pieces root)"""
     rng = g.rng
     info = {b"name": b"a", b"piece length": PL}
     top = {}
     if ver in (1, 3):
-        info[b"length"] = 1
-        info[b"pieces"] = rng.choice([b"x" * 20, rng.randbytes(20)])
+        info[b"length"] = 0 if empty else 1
+        info[b"pieces"] = b"" if empty else rng.choice([b"x" * 20, rng.randbytes(20)])
     if ver in (2, 3):
         info[b"meta version"] = 2
-        info[b"file tree"] = {b"a": {b"": {b"length": 1, b"pieces root": rng.randbytes(32)}}}
+        info[b"file tree"] = {b"a": {b"": {b"length": 0}}} if empty else {b"a": {b"": {b"length": 1, b"pieces root": rng.randbytes(32)}}}
         top[b"piece layers"] = {}
     top[b"info"] = info
     return top
@@ -213,6 +216,7 @@ def expected_of(raw):
             "btih": b"urn:btih:" + hashlib.sha1(span_bytes).hexdigest().encode(),
             "btmh": b"urn:btmh:1220" + hashlib.sha256(span_bytes).hexdigest().encode(),
             "name": info[b"name"], "tr": tr, "ws": list(ws), "tshape": tshape, "wshape": wshape,
+            "empty_pieces": info.get(b"pieces") == b"",
             "multi_tier": len(meta.get(b"announce-list", [])) > 1, "info_len": span[1] - span[0], "has_layers": b"piece layers" in meta,
             "extra": sorted(set(meta) - {b"info", b"announce", b"announce-list", b"url-list", b"piece layers"})}
 
@@ -493,13 +497,19 @@ def shrink(raw, v, route, kind, tmp, budget=800):
 
 # -------------------------------------------------------------------------------------------- metafile streams
 def payload_trees(g, tmp, count):
-    """payloads whose on-disk names carry reserved characters; (name, path, is_single)"""
+    """payloads whose on-disk names carry reserved characters; (name, path).  The last two (numbers count, count + 1) consist of
+       ZERO-LENGTH files only -- a directory and a single file: a v1 / hybrid metafile of such a payload has the EMPTY string as
+       its piece string (it still has v1 content: the key is there)"""
     rng = g.rng
     out = []
-    for i in range(count):
+    for i in range(count + 2):
         name = g.text(disk=True, lo=2, hi=5)[:60]
         root = os.path.join(tmp, f"p{i}", name)
-        if i % 3 == 0:
+        if i == count:
+            tree = {("e\u0301mpty",): b"", ("d", "0 bytes"): b"", ("d", "z&z"): b""}
+        elif i == count + 1:
+            tree = {(): b""}
+        elif i % 3 == 0:
             tree = {(): rng.randbytes(PL + 7)}
         elif i % 3 == 1:
             tree = {("a b&c",): rng.randbytes(PL + 7), ("d", "b=1%"): rng.randbytes(2 * PL + 1), ("d", "é#"): b""}
@@ -578,13 +588,15 @@ def metafiles(ctx, g, tmp):
                 for vi in range(n_var):
                     yield f"{label} reference variant {vi}", "reference variant of a created metafile", variant(meta, g)
     files = [(("a",), g.rng.randbytes(100)), (("d", "b"), g.rng.randbytes(PL + 1))]
+    empties = [(("a",), b""), (("d", "b"), b""), (("d", "c"), b"")]       # zero-length files only: `pieces` is the empty string
     for i in range(n_ref):
         ver = (1, 2, 3)[i % 3]
         if i % 4 == 3:
-            base, origin = hand_built(g, ver), "hand-built dictionary"
+            base, origin = hand_built(g, ver, empty=i % 16 == 7), "hand-built dictionary"
         else:
             single = i % 8 < 2
-            base = oracle.bdecode_strict(oracle.ref_metafile(g.text(lo=1, hi=3), files[:1] if single else files, PL, ver, single=single))
+            fl = empties if i % 16 in (4, 8, 9) else files          # 4: directory (hybrid, v2, v1 in turn); 8, 9: single file
+            base = oracle.bdecode_strict(oracle.ref_metafile(g.text(lo=1, hi=3), fl[:1] if single else fl, PL, ver, single=single))
             origin = "reference encoder"
         yield f"{origin} v{ver} #{i}", origin, variant(base, g)
     # metafiles at scale (see above): 4-tuples, the last element lists the classes the construction aimed at
@@ -823,7 +835,8 @@ REQUIRED = [f"{k} x version {v}" for k in ("v1", "v2", "hybrid") for v in range(
     ["name non-ASCII", "url non-ASCII", "name not UTF-8", "url not UTF-8", "multi-tier announce-list", "foreign extra keys",
      "origin: created", "origin: edited", "origin: reference variant of a created metafile", "origin: reference encoder",
      "origin: hand-built dictionary", "route lib", "route get_magnet", "route cli", "route cli-default", "route subprocess",
-     "quote: single byte", "unquote: single byte", "unquote: '%' + two bytes"]
+     "quote: single byte", "unquote: single byte", "unquote: '%' + two bytes",
+     "v1: pieces is the empty string (zero-length files only)", "hybrid: pieces is the empty string (zero-length files only)"]
 
 
 # ----------------------------------------------------------------------------------------------------- the run
@@ -918,6 +931,7 @@ def run(ctx, model_ok):
             base_classes = [exp["tshape"], exp["wshape"], "origin: " + ("created" if origin.startswith("created by") else origin)] + \
                 string_classes(exp) + (["multi-tier announce-list"] if exp["multi_tier"] else []) + \
                 (["foreign extra keys"] if any(k not in (b"created by", b"creation date", b"httpseeds") for k in exp["extra"]) else []) + \
+                ([f"{exp['kind']}: pieces is the empty string (zero-length files only)"] if exp["empty_pieces"] else []) + \
                 ([origin] if origin.startswith("created by") else []) + \
                 (list(item[3]) + scale_classes(raw, exp) if len(item) > 3 or big else [])
             lib_uri = {}
